@@ -96,12 +96,17 @@ theorem numbers_distinct : (Gen.dispatchRows.map (·.2.2.2)).Nodup := by decide 
 
 theorem numbers_lt_4096 : Gen.dispatchRows.all (fun r => decide (r.2.2.2 < 4096)) = true := by decide +kernel
 
+/-- same elements (the order in which rows and features are listed does not matter) -/
+def sameSet (a b : List String) : Bool :=
+  a.length == b.length && a.all b.contains && b.all a.contains
+
 /-- the set of supported numbers equals the set of message features: `all_msgs`, the `message!`
-table and the `include_msg!` list name the same features, in the same order -/
+table and the `include_msg!` list name the same features (without repetition) and the same modules -/
 theorem features_agree :
-    Features.lookup Gen.cargoFeatures "all_msgs" = some (Gen.dispatchRows.map (·.1)) ∧
-    Gen.includeMsgs.map (·.2) = Gen.dispatchRows.map (·.1) ∧
-    Gen.includeMsgs.map (·.1) = Gen.dispatchRows.map (·.2.2.1) := by decide +kernel
+    sameSet ((Features.lookup Gen.cargoFeatures "all_msgs").getD []) (Gen.dispatchRows.map (·.1)) = true ∧
+    sameSet (Gen.includeMsgs.map (·.2)) (Gen.dispatchRows.map (·.1)) = true ∧
+    sameSet (Gen.includeMsgs.map (·.1)) (Gen.dispatchRows.map (·.2.2.1)) = true ∧
+    (Gen.dispatchRows.map (·.1)).Nodup ∧ Gen.includeMsgs.all (fun r => r.1 == r.2) = true := by decide +kernel
 
 /-- the model's table is the translated one -/
 theorem table_matches_rows :
